@@ -142,7 +142,7 @@ class MemFS:
     def __init__(self):
         self.files = {}  # real path -> str
         self.links = {}  # path -> target path
-        self.dirs = {ROOT}
+        self.dirs = {ROOT, ROOT + "/cwd"}
         self.mtime = {}
         self.clock = 0
         self.ops = 0
@@ -153,7 +153,15 @@ class MemFS:
         self.crashed = False
 
     # -- helpers
+    @staticmethod
+    def ab(p):
+        """relative names are files in the in-memory working directory /m/cwd (nothing may reach the real cwd)"""
+        if isinstance(p, str) and p != "" and not p.startswith("/"):
+            return ROOT + "/cwd/" + p
+        return p
+
     def ismem(self, p):
+        p = self.ab(p)
         return isinstance(p, str) and (p == ROOT or p.startswith(ROOT + "/"))
 
     def _res(self, p):
@@ -186,6 +194,7 @@ class MemFS:
 
     # -- file API
     def open(self, path, mode="r", *a, **kw):
+        path = self.ab(path)
         if not self.ismem(path):
             return builtins.open(path, mode, *a, **kw)
         rp = self._res(path)
@@ -205,38 +214,45 @@ class MemFS:
         return _W(self, rp)
 
     def exists(self, p):
+        p = self.ab(p)
         if not self.ismem(p):
             return _os.path.exists(p)
         rp = self._res(p)
         return rp in self.files or rp in self.dirs
 
     def lexists(self, p):
+        p = self.ab(p)
         if not self.ismem(p):
             return _os.path.lexists(p)
         return p in self.links or p in self.files or p in self.dirs
 
     def isfile(self, p):
+        p = self.ab(p)
         if not self.ismem(p):
             return _os.path.isfile(p)
         return self._res(p) in self.files
 
     def isdir(self, p):
+        p = self.ab(p)
         if not self.ismem(p):
             return _os.path.isdir(p)
         return self._res(p) in self.dirs
 
     def islink(self, p):
+        p = self.ab(p)
         if not self.ismem(p):
             return _os.path.islink(p)
         return p in self.links
 
     def mkdir(self, p, mode=0o777):
+        p = self.ab(p)
         if p in self.dirs or p in self.files:
             raise FileExistsError(17, "File exists", p)
         self._mut("mkdir", p)
         self.dirs.add(p)
 
     def makedirs(self, p, mode=0o777, exist_ok=False):
+        p = self.ab(p)
         if p in self.dirs:
             if exist_ok:
                 return
@@ -252,12 +268,13 @@ class MemFS:
 
     def creat(self, p):
         """os.open(p, O_WRONLY|O_CREAT|O_TRUNC) + close: the cdep touch"""
-        rp = self._res(p)
+        rp = self._res(self.ab(p))
         self._mut("creat", rp)
         self.files[rp] = ""
         self.mtime[rp] = self.clock
 
     def replace(self, src, dst):
+        src, dst = self.ab(src), self.ab(dst)
         self._mut("replace", (src, dst))
         if src in self.links:
             self.links[dst] = self.links.pop(src)
@@ -272,6 +289,7 @@ class MemFS:
     rename = replace
 
     def remove(self, p):
+        p = self.ab(p)
         if p in self.links:
             self._mut("remove", p)
             del self.links[p]
@@ -283,6 +301,7 @@ class MemFS:
         self.mtime.pop(p, None)
 
     def copyfile(self, src, dst, follow_symlinks=True):
+        src, dst = self.ab(src), self.ab(dst)
         if not follow_symlinks and src in self.links:
             # shutil semantics: the link itself is re-created, not its content
             if dst in self.links or dst in self.files:
@@ -299,6 +318,7 @@ class MemFS:
         return dst
 
     def read(self, p):
+        p = self.ab(p)
         return self.files.get(self._res(p))
 
     def put(self, p, text):
@@ -450,22 +470,22 @@ class _PathShim:
 
     def realpath(self, p, **k):
         if self._fs.ismem(p):
-            return self._fs._res(p)
+            return self._fs._res(self._fs.ab(p))
         return _os.path.realpath(p, **k)
 
     def abspath(self, p):
         if self._fs.ismem(p):
-            return posixpath.normpath(p)
+            return posixpath.normpath(self._fs.ab(p))
         return _os.path.abspath(p)
 
     def getmtime(self, p):
         if self._fs.ismem(p):
-            return self._fs.mtime[self._fs._res(p)]
+            return self._fs.mtime[self._fs._res(self._fs.ab(p))]
         return _os.path.getmtime(p)
 
     def getsize(self, p):
         if self._fs.ismem(p):
-            rp = self._fs._res(p)
+            rp = self._fs._res(self._fs.ab(p))
             if rp not in self._fs.files:
                 raise FileNotFoundError(2, "No such file or directory", p)
             return len(self._fs.files[rp].encode("utf-8"))  # size in bytes, not characters
